@@ -888,8 +888,15 @@ class Emitter:
                     return "(EPow %s %s)" % (self.expr(args[0]), self.expr(args[1]))
                 if path == ["Time"] and len(args) == 1 and args[0][0] == "num":
                     return "(ELit (VT %d))" % int(re.sub(r"_?i64", "", args[0][1]))
+                if path == ["DimensionlessInteger"] and len(args) == 1 and args[0][0] == "num":
+                    return "(ELit (VD %d))" % int(re.sub(r"_?i64", "", args[0][1]))
+                if path in (["Time", "default"],) and not args:
+                    return "(ELit (VT 0))"
                 if path == ["Quantity", "from"] and len(args) == 1:
                     return "(EQFrom %s)" % self.expr(args[0])
+                if path == ["Command", "new"] and len(args) == 2 and args[1][0] == "mcall" and args[1][2] == "into" and not args[1][3]:
+                    # Command::new(kind, value: f32): the `.into()` of the second argument is f32::from(Quantity)
+                    return "(EOp 31 [%s; (EOp 23 [%s])])" % (self.expr(args[0]), self.expr(args[1][1]))
                 if len(path) == 2 and tuple(path) in CTOR_OPS:
                     return "(EOp %d %s)" % (CTOR_OPS[tuple(path)], self.lst([self.expr(a) for a in args]))
             raise ParseError("call of %r" % (fn,))
@@ -945,7 +952,11 @@ class Emitter:
                 return "(EOp 43 [%s; %s])" % (self.expr(recv), self.expr(args[0]))
             if name == "assert_eq_assume_not_ok" and len(args) == 1:
                 return "(EOp 44 [%s; %s])" % (self.expr(recv), self.expr(args[0]))
-            if name in METHOD_OPS:
+            if name in ("get_position", "get_velocity", "get_acceleration") and not args and \
+                    ((self.hint_for(recv) or "").split("<")[0] == "Command" or self.kind_of(recv) == "Command"):
+                # the accessors of Command (opcodes 61..63), not those of State (57..59)
+                return "(EOp %d [%s])" % ({"get_position": 61, "get_velocity": 62, "get_acceleration": 63}[name], self.expr(recv))
+            if name in METHOD_OPS and not (recv == ("path", ["self"]) and (self.self_type, name) in self.fns):
                 return "(EOp %d %s)" % (METHOD_OPS[name], self.lst([self.expr(recv)] + [self.expr(a) for a in args]))
             if name == "get" and len(args) == 1 and recv[0] == "field" and recv[1] == ("path", ["self"]):
                 # a History consulted at a time: an external function of the time
